@@ -219,6 +219,28 @@ def search(ctx):
         except Exception as ex:
             import traceback
             ctx.violation("C09:raises:%s" % type(ex).__name__, "cluster check raised %r" % (ex,), dict(kind="raises", tb=traceback.format_exc()[-800:]))
+    # the documented rule, evaluated independently (all pairs, brute force) on clusters of 2-7 uniform spheres in general
+    # position whose largest separation straddles 30 largest-radii, in random orientations and member orders
+    for i in range(ctx.n(150, 1500)):
+        m = int(rng.integers(2, 8))
+        rmax = float(rng.uniform(0.1, 0.6))
+        rs = [rmax] + [float(rng.uniform(0.3, 1.0)) * rmax for _ in range(m - 1)]
+        target = 30 * rmax * float(rng.choice([0.5, 0.8, 0.95, 0.99, 1.01, 1.05, 1.3]))
+        pts = rng.normal(size=(m, 3)) * np.array([1.0, 1.0, float(rng.choice([0.05, 1.0]))])
+        dmax = max(np.linalg.norm(pts[a] - pts[b]) for a in range(m) for b in range(a + 1, m))
+        pts = pts * (target / dmax) + rng.uniform(-3, 3, size=3)
+        order = rng.permutation(m)
+        members = [Sphere(n=1.5, r=rs[j], center=tuple(float(v) for v in pts[j])) for j in order]
+        dmax = max(np.linalg.norm(pts[a] - pts[b]) for a in range(m) for b in range(a + 1, m))
+        if abs(dmax / (30 * rmax) - 1) < 1e-9:
+            continue
+        want = "Multisphere" if dmax <= 30 * rmax else "Mie"
+        ctx.tried("rule-brute-force", (m, round(dmax / (30 * rmax), 6), i))
+        r = impl_call(lambda: type(determine_default_theory_for(Spheres(members, warn=False))).__name__)
+        got = r if isinstance(r, str) else "err:" + r[1]
+        if got != want:
+            ctx.violation("C09:rule:cluster", "%d spheres with largest separation %.4f x (30 largest radii) get %s; the documented rule says %s" % (m, dmax / (30 * rmax), got, want),
+                          dict(kind="rule-cluster", members=[repr(s) for s in members], ratio=float(dmax / (30 * rmax))))
     # other shapes and non-scatterers
     for obj, want in ((Ellipsoid(n=1.5, r=(0.3, 0.4, 0.5), center=(0, 0, 1)), "DDA" if HAVE_ADDA else "err:DependencyMissing"),
                       ("not a scatterer", "err:AutoTheoryFailed"), (Spheroid(n=1.5, r=(0.4, 0.6), center=(0, 0, 1)), "Tmatrix"),
